@@ -1016,6 +1016,70 @@ def _record_field(l: ast.AST) -> bool:
     return isinstance(l, ast.Subscript) and isinstance(l.slice, ast.Constant) and isinstance(l.slice.value, str)
 
 
+def _record_list(f: Func, name: str) -> bool:
+    """`name` is a local list that only ever receives record indices (x.token, x.end, one of those minus a constant)."""
+    n_app = 0
+    for n in own_nodes(f.node):
+        if isinstance(n, ast.Assign) and any(isinstance(t, ast.Name) and t.id == name for t in n.targets):
+            if not (isinstance(n.value, ast.List) and not n.value.elts):
+                return False
+        elif isinstance(n, ast.AnnAssign) and isinstance(n.target, ast.Name) and n.target.id == name:
+            if n.value is not None and not (isinstance(n.value, ast.List) and not n.value.elts):
+                return False
+        elif isinstance(n, ast.Call) and isinstance(n.func, ast.Attribute) and isinstance(n.func.value, ast.Name) and n.func.value.id == name:
+            if n.func.attr == "append" and n.args:
+                v = n.args[0]
+                while isinstance(v, ast.BinOp) and isinstance(v.op, ast.Sub) and isinstance(v.right, ast.Constant) and isinstance(v.right.value, int) \
+                        and v.right.value >= 0:
+                    v = v.left
+                if not _record_field(v):
+                    return False
+                n_app += 1
+            elif n.func.attr not in ("pop", "reverse", "clear", "sort"):
+                return False
+    return n_app > 0
+
+
+def _record_value(c: Ctx, f: Func, e: ast.AST, at: ast.AST, depth: int = 0) -> bool:
+    """e evaluates to a record index: a record field, a value popped from / iterated over a list of record indices, a local or a
+    parameter all of whose sources are such values."""
+    from ..reach import Reaching
+    if depth > 3:
+        return False
+    if _record_field(e):
+        return True
+    if isinstance(e, ast.Call) and isinstance(e.func, ast.Attribute) and e.func.attr == "pop" and not e.args and isinstance(e.func.value, ast.Name):
+        return _record_list(f, e.func.value.id)
+    if isinstance(e, ast.Name):
+        rds = Reaching(c.cfg(f)).at_ast(at, e.id)
+        if not rds:
+            return False
+        for d in rds:
+            if d.kind == "assign" and d.value is not None:
+                if not _record_value(c, f, d.value, d.stmt, depth + 1):
+                    return False
+            elif d.kind == "for" and isinstance(d.stmt, ast.For) and isinstance(d.stmt.target, ast.Name):
+                it = d.stmt.iter
+                if isinstance(it, ast.Call) and isinstance(it.func, ast.Name) and it.func.id in ("reversed", "list", "sorted", "iter") and len(it.args) == 1:
+                    it = it.args[0]
+                if isinstance(it, ast.Subscript) and isinstance(it.slice, ast.Slice):
+                    it = it.value
+                if not (isinstance(it, ast.Name) and _record_list(f, it.id)):
+                    return False
+            elif d.kind == "param":
+                sites = c.cg.callers.get(f, [])
+                if not sites or any(cs.kind not in ("direct", "method") for cs in sites):
+                    return False
+                for cs in sites:
+                    a = c.eff.arg_for_param(cs, f, e.id)
+                    if a is None or not _record_value(c, cs.caller, a, cs.node, depth + 1):
+                        return False
+            else:
+                return False
+        return True
+    return False
+
+
 def _record_index(f: Func, sub: ast.Subscript, bounds: "Bounds") -> bool:
     """The index is a field of a record object (x.token, x.end, item['token']), a value popped from a list of such indices, or
     one of those minus a constant.  With a *positive* offset it is accepted only next to an equality test of the same
@@ -1034,6 +1098,8 @@ def _record_index(f: Func, sub: ast.Subscript, bounds: "Bounds") -> bool:
         rec = bool(rds) and all(d.kind == "assign" and d.value is not None and (
             _record_field(d.value) or (isinstance(d.value, ast.Call) and isinstance(d.value.func, ast.Attribute)
                                        and d.value.func.attr == "pop" and not d.value.args)) for d in rds)
+        if not rec:
+            rec = _record_value(bounds.c, f, l, sub)
     if not rec:
         return False
     if off <= 0:
@@ -1128,6 +1194,13 @@ def rule_tokbnd(c: Ctx) -> RuleResult:
                         k = z.d.get((T(li[0]), bound))
                         if k is not None:
                             e1.add(pi, f"len({pq})", k - li[1])
+            # a record index handed to the helper together with the token list it indexes: the data invariant of the records
+            # (RECORD_REASON) becomes part of the helper's entry contract
+            for pi, ai in amap.items():
+                if lin(ai) is not None and _record_value(c, cs.caller, ai, cs.node):
+                    for pq, aq in amap.items():
+                        if pq != pi and isinstance(aq, ast.Attribute) and aq.attr == "tokens":
+                            e1.add(pi, f"len({pq})", -1)
             acc = e1 if acc is None else acc.join(e1)
         return acc if acc is not None and acc.d else None
 
